@@ -46,8 +46,8 @@ ELEM_PRECS = [380, 399, 400, 401, 420, 2480, 2499, 2500, 2501, 2520, 2980, 2999,
 class Machine(object):
     PROP = 'C33'
     DEFAULT_SEED = 3301
-    RUNS = {'quick': 1200, 'thorough': 25000}
-    WALL = {'quick': 150, 'thorough': 1500}
+    RUNS = {'quick': 1500, 'thorough': 25000}
+    WALL = {'quick': 170, 'thorough': 1500}
     MIN_WALL = 120
     BUDGET = {'quick': 300000, 'thorough': 1000000}
     RUN_TIMEOUT = 300
@@ -475,20 +475,44 @@ class _Gen(object):
         rung judged against the pristine state: 'never reused at a lower accuracy than requested', entry by entry"""
         r = self.rng
         actor = 'mp'
-        keys = []
-        for g in GROUPS:
-            keys.extend(GROUPS[g])
-        ents = [catalogue.BY_KEY[k] for k in sorted(set(keys)) if k in catalogue.BY_KEY]
-        if r.random() < 0.3:
-            ents = catalogue.entries(ctx='mp', maxcost=2)
-        ents = [e for e in ents if 'mp' in e.ctxs and e.cost <= 2 and e.key not in EXCLUDE and not e.key.endswith('_vhi')
-                and (not e.cb or e.key in ('quad', 'quadgl', 'quad_lor', 'quadts', 'nsum', 'diff'))]
+        ok = lambda e: ('mp' in e.ctxs and e.cost <= 2 and e.key not in EXCLUDE and not e.key.endswith('_vhi')
+                        and (not e.cb or e.key in ('quad', 'quadgl', 'quad_lor', 'quadts', 'nsum', 'diff')))
+        c = r.random()
+        if c < 0.2:
+            ents = [e for e in catalogue.entries(ctx='mp', maxcost=2) if ok(e)]
+        else:
+            # one cache family, and within it half of the time one of its first four members
+            # (the routines that own the cache; the others merely use it)
+            g = r.choice(sorted(GROUPS))
+            keys = GROUPS[g][:4] if c < 0.6 else GROUPS[g]
+            ents = [catalogue.BY_KEY[k] for k in keys if k in catalogue.BY_KEY and ok(catalogue.BY_KEY[k])]
+            if not ents:
+                ents = [e for e in catalogue.entries(ctx='mp', maxcost=2) if ok(e)]
         e = r.choice(ents)
         self.cfg['ladder'] = e.key
         hi = min(e.maxprec, 700)
-        ps = sorted(set(pick_prec(r, hi) for _ in range(r.randint(2, 4))))
+        flavour = r.choice(['random', 'bucket', 'bucket', 'window', 'near'])
+        self.cfg['ladder_flavour'] = flavour
+        base = pick_prec(r, hi)
+        if flavour == 'bucket':
+            # two or three precisions of one 32-bit bucket, far enough apart for a reuse to show
+            b = (base // 32) * 32
+            lo = b + r.randint(0, 9)
+            ps = set([lo, lo + r.randint(13, 22)])
+            if r.random() < 0.4:
+                ps.add(b + 32 + r.randint(0, 9))
+        elif flavour == 'window':
+            # inside the reuse windows of tables stored at 1.05 p + 10 / 1.2 p
+            ps = set([base, int(base * r.choice([1.02, 1.04, 1.05, 1.1, 1.19])) + r.choice([0, 5, 10, 11])])
+        elif flavour == 'near':
+            ps = set([base])
+            for _ in range(r.randint(1, 3)):
+                ps.add(base + r.choice([-31, -20, -12, -7, -3, -1, 1, 3, 7, 12, 20, 31]))
+        else:
+            ps = set(pick_prec(r, hi) for _ in range(r.randint(2, 4)))
+        ps = sorted(set(max(1, min(e.maxprec, p)) for p in ps))
         if len(ps) < 2:
-            ps.append(min(e.maxprec, ps[0] + 37))
+            ps = sorted(set([ps[0], max(1, min(e.maxprec, ps[0] + 37)), max(1, ps[0] - 17)]))
         order = r.choice(['asc', 'asc', 'desc', 'updown'])
         seq = ps if order == 'asc' else (ps[::-1] if order == 'desc' else ps + ps[-2::-1])
         steps = []
@@ -510,9 +534,9 @@ class _Gen(object):
     def program(self):
         r = self.rng
         c0 = r.random()
-        if c0 < 0.2:
+        if c0 < 0.15:
             return self.sitesweep_program()
-        if c0 < 0.32:
+        if c0 < 0.45:
             return self.ladder_program()
         steps = []
         if 'c1' in self.actors:
@@ -659,4 +683,21 @@ class _Gen(object):
               'ref_setup': [json.loads(json.dumps(self.memo['mk']))]}
         if self.memo['mk']['args'][0]['name'] == 'kwf' and r.random() < 0.5:
             st['kwargs'] = {'c': I(r.randint(0, 2))}
+        # a memoized call aborted while the wrapped function runs (the user's function raises, or Ctrl-C lands
+        # inside the wrapper), then - what a user does - the same call again, and further calls later
+        u1, u2, u3 = r.random(), r.random(), r.random()
+        if self.memo.get('calls') and u1 < max(self.fault_rate, 0.2) and self.nfault < 3:
+            if u2 < 0.6:
+                st['fault'] = {'kind': 'F1', 'u': u3, 'slot': 0, 'act': 'raise', 'shim_of': self.memo['mk']['id']}
+            else:
+                st['fault'] = {'kind': 'F3', 'u': u3, 'placement': self.placement}
+            self.nfault += 1
+        self.memo['calls'] = self.memo.get('calls', 0) + 1
         steps.append(st)
+        if 'fault' in st:
+            steps.append({'kind': 'reassert', 'id': self.new_id()})
+            retry = json.loads(json.dumps(st))
+            retry.pop('fault', None)
+            retry['id'] = self.new_id()
+            retry['rel'] = 'retry'
+            steps.append(retry)
